@@ -1027,7 +1027,7 @@ class C15C(EngineBase):
             ren = {}
             while k < cfg["nops"] and guard < 30:
                 guard += 1
-                if pool and rng.random() < cfg["p_pool"]:
+                if pool and rng.random() < (max(cfg["p_pool"], 0.9) if twins else cfg["p_pool"]):
                     steps = copy.deepcopy(rng.choice(pool))
                 else:
                     steps = ops.gen_steps(ctx, dict(ns))
@@ -1103,6 +1103,7 @@ class C15C(EngineBase):
         """Each thread's program alone, sequentially, untraced, cold caches."""
         ref = {}
         executed = []
+        nthreads_of = {}
         for tid, steps in sorted(st.tsteps.items()):
             core.world_reset(0, 512)
             shared = self._build_shared(st.shared_steps)
@@ -1112,10 +1113,12 @@ class C15C(EngineBase):
                 for c in T.discover_executed(_tiers(), fn):
                     if c not in executed:
                         executed.append(c)
+                    nthreads_of[c] = nthreads_of.get(c, 0) + 1
             else:
                 fn()
             ref[tid] = [(r[0], S.snap(r[1])) if r[0] == "ok" else r for r in res]
         st.executed_hot = executed
+        st.executed_by = nthreads_of
         return ref
 
     def _concurrent(self, st, policy, instruction_level=True, record_sites=False, post_join=True):
@@ -1197,7 +1200,11 @@ class C15C(EngineBase):
             # windows right around a write to shared state are the classic
             # race windows: 75% of the breakpoints go there
             import dis as _dis
-            weights = [max(1, len(T.write_adjacent_offsets(c))) for c in codes]
+            # a race needs two threads in the same code: functions that more
+            # than one thread's program executes count three times
+            by = getattr(st, "executed_by", {})
+            weights = [max(1, len(T.write_adjacent_offsets(c))) * (3 if by.get(c, 0) >= 2 else 1)
+                       for c in codes]
             code = rng.choices(codes, weights=weights)[0]
             near = sorted(T.write_adjacent_offsets(code))
             if near and rng.random() < 0.75:
